@@ -783,6 +783,15 @@ class _ExprNorm(ast.NodeTransformer):
 
     def visit_BinOp(self, node):
         self.generic_visit(node)
+        # integer literals fold: 8 + 1 -> 9, 64 | 1 -> 65
+        if isinstance(node.left, ast.Constant) and isinstance(node.right, ast.Constant) and type(node.left.value) is int and type(node.right.value) is int:
+            a_, b_ = node.left.value, node.right.value
+            ops_ = {ast.Add: lambda: a_ + b_, ast.Sub: lambda: a_ - b_, ast.Mult: lambda: a_ * b_, ast.BitOr: lambda: a_ | b_, ast.BitAnd: lambda: a_ & b_,
+                    ast.BitXor: lambda: a_ ^ b_, ast.LShift: lambda: a_ << b_ if 0 <= b_ < 64 else None, ast.RShift: lambda: a_ >> b_ if 0 <= b_ < 64 else None}
+            f_ = ops_.get(type(node.op))
+            v_ = f_() if f_ else None
+            if v_ is not None:
+                return ast.copy_location(ast.Constant(v_), node)
         # [a] + b  -> [a, *b]   (b a list expression);  [..] + [..] -> [.., ..]
         if isinstance(node.op, ast.Add) and isinstance(node.left, ast.List):
             if isinstance(node.right, ast.List):
@@ -1056,6 +1065,21 @@ class Canon:
         self.cache: dict = {}
         norm.FINAL_ATTRS.clear()
         norm.FINAL_ATTRS.update(self._final_attrs())
+
+    def _inline_unknown_constants(self, stmts, module, fn):
+        """a private module-level literal the rule tables do not know (`_FLAG_ZSTD = 0b1`, added after they were written) is seen
+        through like an unknown helper: its reads are replaced by the literal"""
+        known = known_defs()
+        consts = {}
+        for name, v in module.assigns.items():
+            if name.startswith("_") and not name.startswith("__") and f"const:{name}" not in known and isinstance(v, ast.Constant) \
+                    and isinstance(v.value, (int, str, bytes)) and not isinstance(v.value, bool):
+                consts[name] = v
+        if not consts:
+            return stmts
+        local = norm._assigned_names(stmts) | {a.arg for a in fn.args.posonlyargs + fn.args.args + fn.args.kwonlyargs}
+        consts = {k: v for k, v in consts.items() if k not in local}
+        return [norm._Subst(dict(consts)).visit(s_) for s_ in stmts] if consts else stmts
 
     def _final_attrs(self) -> set[str]:
         """attribute names stored (anywhere in the program) only inside __init__ / __post_init__ / __new__: a method call on
@@ -1337,6 +1361,7 @@ class Canon:
             return self.cache[key]
         b = [copy.deepcopy(s) for s in real_body(fn)]
         b = strip_annotations(b)
+        b = self._inline_unknown_constants(b, module, fn)
         # nested function definitions that get inlined are dropped afterwards
         b = lower_matches(b, self._match_args(module, fn))
         b = lift_ifexp(b)
@@ -1348,6 +1373,7 @@ class Canon:
         b = lift_walrus(lift_ifexp(b))
         inl = Inliner(look)
         b = inl.rec(b, inl.depth, (fn.name,))
+        b = self._inline_unknown_constants(b, module, fn)      # .. those read by the helpers that were just inlined
         b = lift_walrus(lift_ifexp(b))          # conditional expressions returned by inlined helpers
         used = {n.id for s in b for n in ast.walk(s) if isinstance(n, ast.Name)} | {n.func.id for s in b for n in ast.walk(s) if isinstance(n, ast.Call) and isinstance(n.func, ast.Name)}
         b = [s for s in b if not (isinstance(s, ast.FunctionDef) and s.name not in used)]
